@@ -278,6 +278,24 @@ theorem emit_parse_roundtrip_result (j : OutMsg) (hm : j.m = []) (hid : j.id ≠
       { v := version, id := j.id, m := [], p := [], hasE := false, r := j.r, extra := false, errs := [] } :=
   parse_emitted_result j hm hid hr (partB_spec _ pid) hvid (partB_spec _ pr)
 
+/-- **emit / parse round trip for error responses**: `{"jsonrpc":"2.0","id":…,"error":{"code":c,
+"message":…,"data":…}}` with any message text, a code text that is an int32 literal and optional
+data: the error object is split into exactly its members, the decoder accepts it (`errorValueOK`)
+and the response parses back with the same id, `error` set and no error flagged. (`partB` of the
+whole error text is a hypothesis here; the oracle evaluates it on every error object emitted.) -/
+theorem emit_parse_roundtrip_error (j : OutMsg) (c msg d : Bytes) (hm : j.m = []) (hid : j.id ≠ []) (hr : j.r = [])
+    (he : j.e = some (objText (errorMembers c msg d)))
+    (pid : partB j.id = true) (hvid : isValidID j.id = true)
+    (pc : partB c = true) (hc : int32Literal c = true) (pd : d = [] ∨ partB d = true)
+    (pe : partB (objText (errorMembers c msg d)) = true) :
+    parseMember (memberView (toJSON j)) =
+      { v := version, id := j.id, m := [], p := [], hasE := true, r := [], extra := false, errs := [] } :=
+  parse_emitted_error j c msg d hm hid hr he (partB_spec _ pid) hvid (partB_spec _ pc) hc (pd.imp id (partB_spec _)) (partB_spec _ pe)
+
+/-- the marshalled `Error` object of the model is that object text -/
+theorem error_object_shape (code : Int) (msg d : Bytes) :
+    errorJSON code msg d = objText (errorMembers (toString code).toUTF8.toList msg d) := errorJSON_eq code msg d
+
 /-- the string escaping is lossless: decoding a quoted method name (or key) gives it back -/
 theorem quote_roundtrip (x : Bytes) : unquote (quote x) = some x := unquote_quote x
 
